@@ -393,8 +393,7 @@ class SymArray:
         ii = z3.Int("__i")
         c.assume(SymBool(z3.And(w.t >= 0, w.t < iterm(self.n), f(w.t) == m.t)))
         ax = z3.ForAll([ii], z3.Implies(z3.And(ii >= 0, ii < iterm(self.n)), f(ii) <= m.t))
-        c.pc.append(ax)
-        c.solver.add(ax)
+        c.add_axiom(ax)
         return m
 
     def any(self):
@@ -427,9 +426,8 @@ def scatter_functions(key: "SymArray"):
     r, k = z3.Int("__r"), z3.Int("__k")
     ax1 = z3.ForAll([r], z3.Implies(H(r), z3.And(I(r) >= 0, I(r) < q, R(I(r)) == r)), patterns=[H(r)])
     ax2 = z3.ForAll([k], z3.Implies(z3.And(k >= 0, k < q), z3.And(H(R(k)), I(R(k)) == k)), patterns=[R(k)])
-    c.pc.append(ax1)
-    c.pc.append(ax2)
-    c.solver.add(ax1, ax2)
+    c.add_axiom(ax1)
+    c.add_axiom(ax2)
     from .shims import _used
 
     _used("numpy scatter a[R] = v with pairwise distinct R: a[R[k]] = v[k] for every k, other entries unchanged")
@@ -864,9 +862,11 @@ def _m_zeros(shape, dtype=float, order="C", **k):
     _used("np.zeros/ones/full(n): constant array of length n")
     if isinstance(shape, tuple) and len(shape) == 1:
         shape = shape[0]
+    srt = "bool" if dtype in (bool, np.bool_) else ("int" if dtype in (int, np.int64, np.int32) else "real")
     if isinstance(shape, SymInt):
-        srt = "bool" if dtype in (bool, np.bool_) else ("int" if dtype in (int, np.int64, np.int32) else "real")
         return SymArray.const(shape, False if srt == "bool" else 0, srt)
+    if isinstance(shape, tuple) and len(shape) == 2 and isinstance(shape[0], (int, np.integer)) and isinstance(shape[1], SymInt):
+        return SymRows([SymArray.const(shape[1], False if srt == "bool" else 0, srt) for _ in range(int(shape[0]))])
     raise EngineLimit("np.zeros with a symbolic n-d shape")
 
 
@@ -1037,6 +1037,108 @@ def _m_sqrt_etc(name):
     return f
 
 
+# --------------------------------------------------------------------------- membership / quantifier models
+
+
+class Opaque:
+    """result of a numpy call whose value is irrelevant to the contract (kept out of every obligation)"""
+
+    _pretend = (np.ndarray,)
+
+    def __init__(self, what):
+        self.what = what
+
+    def __array_function__(self, func, types, args, kwargs):
+        return Opaque(f"{getattr(func, '__name__', func)} of ({self.what})")
+
+    def reshape(self, *a, **k):
+        return self
+
+
+def _m_isin(a, b, *x, **k):
+    from .shims import _used
+
+    _used("np.isin(a, b): elementwise membership of a in b (b with pairwise distinct entries, or the index set of a mask)")
+    if isinstance(b, IndexSet):
+        mem = b.mask
+    elif isinstance(b, SymArray):
+        H, _ = scatter_functions(b)
+        mem = lambda t: H(t)
+    else:
+        raise EngineLimit("np.isin with a concrete second argument")
+    if isinstance(a, SymArray):
+        f = a._elem
+        return SymArray(a.n, lambda i: mem(f(i)), "bool")
+    if isinstance(a, SymInt):
+        return concrete(SymBool(mem(a.t)))
+    raise EngineLimit("np.isin first argument")
+
+
+def _m_all(a, *x, **k):
+    if isinstance(a, SymArray) and a.sort == "bool":
+        ii = z3.Int("__qa")
+        return concrete(SymBool(z3.ForAll([ii], z3.Implies(z3.And(ii >= 0, ii < iterm(a.n)), a._elem(ii)))))
+    if isinstance(a, SymBool):
+        return a
+    raise EngineLimit("np.all")
+
+
+def _m_any(a, *x, **k):
+    if isinstance(a, SymArray) and a.sort == "bool":
+        ii = z3.Int("__qe")
+        return concrete(SymBool(z3.Exists([ii], z3.And(ii >= 0, ii < iterm(a.n), a._elem(ii)))))
+    if isinstance(a, SymBool):
+        return a
+    raise EngineLimit("np.any")
+
+
+def _m_argwhere(a):
+    if isinstance(a, SymArray) and a.sort == "bool":
+        return IndexSet(a.n, a._elem)
+    raise EngineLimit("np.argwhere")
+
+
+def _m_tile(a, reps):
+    return Opaque("np.tile with a symbolic repetition count")
+
+
+def _m_reshape(a, *x, **k):
+    if isinstance(a, Opaque):
+        return a
+    raise EngineLimit("np.reshape of a proxy")
+
+
+class SymRows:
+    """2-D array with a concrete number of rows and a symbolic number of columns: one SymArray per row"""
+
+    _pretend = (np.ndarray,)
+    ndim = 2
+
+    def __init__(self, rows):
+        self.rows = rows
+
+    @property
+    def shape(self):
+        return (len(self.rows), self.rows[0].n)
+
+    def __setitem__(self, key, val):
+        if isinstance(key, tuple) and len(key) == 2 and key[0] == slice(None):
+            for r in self.rows:
+                r[key[1]] = val
+            return
+        if isinstance(key, tuple) and len(key) == 2 and isinstance(key[0], (int, np.integer)):
+            self.rows[int(key[0])][key[1]] = val
+            return
+        raise EngineLimit("SymRows assignment")
+
+    def __getitem__(self, key):
+        if isinstance(key, tuple) and len(key) == 2 and isinstance(key[0], (int, np.integer)):
+            return self.rows[int(key[0])][key[1]]
+        if isinstance(key, (int, np.integer)):
+            return self.rows[int(key)]
+        raise EngineLimit("SymRows index")
+
+
 def FUNCTION_MODELS():
     """numpy functions reached through the __array_function__ protocol of the proxies."""
     from .shims import _isclose, _allclose
@@ -1052,6 +1154,11 @@ def FUNCTION_MODELS():
         np.concatenate: _m_concatenate,
         np.copy: lambda a, *x, **k: a.copy(),
         np.argsort: _m_argsort,
+        np.isin: _m_isin,
+        np.all: _m_all,
+        np.any: _m_any,
+        np.argwhere: _m_argwhere,
+        np.reshape: _m_reshape,
         np.ndim: lambda a: a.ndim,
         np.shape: lambda a: a.shape,
     }
@@ -1068,6 +1175,7 @@ def CONSTRUCTOR_MODELS():
         (np, "zeros", _m_zeros),
         (np, "full", _m_full),
         (np, "arange", _m_arange),
+        (np, "tile", _m_tile),
         (np, "ones", _m_ones),
         (np, "array", _m_array),
         (np, "asarray", _m_asarray),
